@@ -85,9 +85,17 @@ StatusCmdVerdict(o) ==
       final == st = "absent" \/ st \in Terminal
   IN (IF (o.treated \/ o.single \in {"none", "complete"}) => final THEN {} ELSE {"ActiveNeverFinished"})
      \cup (IF o.errA = "" /\ o.errB = "" THEN {} ELSE {"StatusRowsParsed"})
+\* one round asking for several tracked batches through one status collector; the status query may be failing: without an
+\* answer from the scheduler no batch may be taken for finished (and an error is acceptable only then)
+StatusMultiVerdict(o) ==
+  LET St(qid) == LET present == {k \in 1..Len(o.rows) : o.rows[k][1] = qid}
+                 IN IF present = {} THEN "absent" ELSE o.rows[CHOOSE k \in present : TRUE][2]
+      Final(qid) == o.nfail = 0 /\ (St(qid) = "absent" \/ St(qid) \in Terminal)
+  IN (IF \A k \in 1..Len(o.results) : o.results[k][2] => Final(o.results[k][1]) THEN {} ELSE {"ActiveNeverFinished"})
+     \cup (IF o.nfail = 0 => (o.err = "" /\ Len(o.results) = Len(o.queries)) THEN {} ELSE {"StatusRowsParsed"})
 SubmitVerdict(o) == IF <<o.result, o.jobid>> = ExpectedSubmit(o.cls) THEN {} ELSE {"SubmitResponseParsed"}
 Verdict(o) == CASE o.kind = "retry" -> RetryVerdict(o) [] o.kind = "script" -> ScriptVerdict(o)
-                [] o.kind = "squeue" -> StatusVerdict(o) [] o.kind = "squeuecmd" -> StatusCmdVerdict(o)
+                [] o.kind = "squeue" -> StatusVerdict(o) [] o.kind = "squeuecmd" -> StatusCmdVerdict(o) [] o.kind = "squeuemulti" -> StatusMultiVerdict(o)
                 [] OTHER -> SubmitVerdict(o)
 
 OInit == r = 0 /\ listed = FALSE /\ hist = <<>> /\ stopped = TRUE /\ i \in 1..Len(Obs)
